@@ -99,7 +99,7 @@ func executesBeforeInIteration(first, second ssa.Instruction, header *ssa.BasicB
 
 // C03: a simple paragraph is kept or dropped as a whole.
 func C03(p *core.Program, r *core.Report) {
-	r.Explanation = "I1 (iterator invalidation): every loop that walks siblings by re-reading cursor.NextSibling/PrevSibling is located in the analysed program; using the effect summaries (callbacks included context-insensitively) no call that executes before the advancing load in an iteration may write that link field of an object of the cursor's region - otherwise the walk silently skips the rest of the paragraph (the defect repaired in WalkNodes). I2 (inline tags stay inside the block): from the extracted tables, each of a,b,code,em,font,i,span,strong,u has display `inline`, inline display neither flushes nor labels, the converter's tag switch drops none of them unconditionally, font is renamed to an inline tag, and the builder's flush flag is only raised by SkipNode/StartNode. I3: TextBlock.ApplyToModel marks every Text element of a content block on every iteration path. I4: on every decision path of the element visitor for an inline tag that does not descend into the element, the reason is a decision on a marking attribute of the element (class, id, rel, role, itemprop, data-*; of its href only the documented mediawiki edit-section test) or its visibility - or it is the javascript: anchor rewrite, which applies only to an anchor whose single child is a text node and hands that node to the builder. I5: StartNode pushes GetActionForElement of the very element it is given. I6: the output post-processors (absolutisers, StripAttributes) write no structural field of html.Node (effect summaries, callees included)."
+	r.Explanation = "I1 (iterator invalidation): every loop that walks siblings by re-reading cursor.NextSibling/PrevSibling is located in the analysed program; using the effect summaries (callbacks included context-insensitively) no call that executes before the advancing load in an iteration may write that link field of an object of the cursor's region - otherwise the walk silently skips the rest of the paragraph (the defect repaired in WalkNodes). I2 (inline tags stay inside the block): from the extracted tables, each of a,b,code,em,font,i,span,strong,u has display `inline`, inline display neither flushes nor labels, the converter's tag switch drops none of them unconditionally, font is renamed to an inline tag, and the builder's flush flag is only raised by SkipNode/StartNode. I3: TextBlock.ApplyToModel marks every Text element of a content block on every iteration path. I4: on every decision path of the element visitor for an inline tag that does not descend into the element, the reason is a decision on a marking attribute of the element (class, id, rel, role, itemprop, data-*; of its href only the documented mediawiki edit-section test) or its visibility - or it is the javascript: anchor rewrite, which applies only to an anchor whose single child is a text node and hands that node to the builder. I5: StartNode pushes GetActionForElement of the very element it is given. I6: the output post-processors (absolutisers, StripAttributes) write no structural field of html.Node (effect summaries, callees included). I5: one iteration of the walker's child loop has no decision of its own (no depth or count bound, no filter) and always walks the child."
 	r.NotCovered = "the classifier's decision which blocks are content; visibility of inline elements (C04); the three documented conditional drops inside paragraphs (mediawiki edit links/sections)."
 
 	a := runPEA(p)
